@@ -566,6 +566,13 @@ def r6_naming_order(ctx, rep):
                py.nloc(copies[0]))
 
 
+
+def r7_canonical_paths(ctx, rep):
+    """the output directory is kept out of the source search by comparing path texts: that only works when every
+    configured path is canonical (symlinks and `..` resolved) - shared with C19.R3"""
+    from . import c19
+    c19.r3_resolved_paths(ctx, rep)
+
 RULES = [
     RuleSpec("C12.R6", r6_naming_order, "page-name numbering does not depend on set iteration order", floor=1),
     RuleSpec("C12.R5", r5_serial_parallel_agree, "serial and parallel graph output agree", floor=3),
@@ -573,4 +580,5 @@ RULES = [
     RuleSpec("C12.R1", r1_unordered_iteration, "no unordered source reaches an order-sensitive sink unsorted", floor=10),
     RuleSpec("C12.R2", r2_stale_output, "stale output cannot survive", floor=2),
     RuleSpec("C12.R3", r3_clock, "clock and identity stay out of the output", floor=4),
+    RuleSpec("C12.R7", r7_canonical_paths, "configured paths are canonical (shared with C19.R3)", floor=1),
 ]
